@@ -126,3 +126,48 @@ STORE = register(Stream(
           "storePrimes / storeNPrimes must predict ok/throw, count, FNV-1a of the list, first and last element; "
           "non-trivial = something was appended or an error was raised; distinct by the full operation"),
     nontrivial=lambda o, obs: "ok n=0 " not in obs))
+
+# --------------------------------------------------------------------------------------------
+# nth: nth_prime(n, start), C++ and C API
+# --------------------------------------------------------------------------------------------
+INT64_MIN, INT64_MAX, MAX_N = -2**63, 2**63 - 1, 425656284035217743
+
+def gen_nth(tier, r):
+    q = tier == "quick"
+    ops = []
+    def op(label, n, start):
+        ops.append((label, f"nth {n} {start} {r.choice([1, 4])} {r.choice([16, 33, 256])} {r.choice(['cpp', 'c'])}"))
+    for n in (range(-12, 13) if not q else [-7, -3, -2, -1, 0, 1, 2, 5, 11]):
+        for start in (range(0, 32) if not q else r.sample(range(0, 32), 8)):
+            op("small", n, start)
+    for start in [0, 1, 2, 3, 4, 7, 8, 9, 719, 720, 721, 10**6, 10**9 + 7, 10**12 + 39, MAXPRIME64, MAXPRIME64 - 1, MAXPRIME64 + 1, UMAX, UMAX - 1]:
+        op("n-zero", 0, start)
+    # not enough primes below start
+    for n, start in [(-4, 8), (-5, 8), (-1, 2), (-1, 3), (-1, 0), (-2, 3), (-25, 100), (-26, 100), (-168, 1000), (-169, 1000), (-9, 9), (-10, 9)]:
+        op("neg-exhaust", n, start)
+    # medium n: counting + correction walks
+    for n in ([50, 1000, 20000] if q else [50, 100, 333, 1000, 5000, 20000, 100000, 250000]):
+        for start in ([0, 10**6, 10**10] if q else [0, 1, 10**4, 10**6, 10**8 + 7, 10**10, 10**12, 10**13]):
+            op("medium", n, start)
+            if start > 40 * n:
+                op("medium-neg", -n, start)
+    for _ in range(10 if q else 100):
+        op("random", r.choice([1, -1]) * r.randrange(1, 3000), r.randrange(10**5, 10**11))
+    # extremes of n
+    for n in [INT64_MIN, INT64_MIN + 1, INT64_MAX, MAX_N + 1, -(MAX_N + 1), -MAX_N]:
+        op("extreme-n", n, r.choice([0, 10, 10**6, UMAX]))
+    op("extreme-n", MAX_N, UMAX - 5)
+    # top of the range
+    for n, start in [(1, UMAX), (3, UMAX), (1, MAXPRIME64), (1, MAXPRIME64 - 1), (2, MAXPRIME64 - 1), (-1, UMAX), (-2, UMAX),
+                     (-1, MAXPRIME64), (-1, MAXPRIME64 + 1), (5, UMAX - 300), (12, UMAX - 300), (1000, UMAX - 20000),
+                     (400, UMAX - 20000), (-1000, UMAX - 7), (40, 2**63 - 5), (-40, 2**63 + 5), (7, 2**32 - 3), (-7, 2**32 + 3)]:
+        op("top", n, start)
+    return ops
+
+NTH = register(Stream(
+    "nth", gen_nth,
+    rule=("cases = nth_prime(n, start) via the C++ and C API with thread counts 1/4 and several sieve sizes; the harness "
+          "oracle walks the primes itself (sieve / Miller-Rabin) and checks value or error; the Lean model nthPrime is "
+          "run with two different approximation oracles and must give the same value / error class; non-trivial = "
+          "|n| >= 1 and the call did not fail for argument validation alone; distinct by (n, start)"),
+    nontrivial=lambda o, obs: obs.startswith("v=")))
